@@ -4,12 +4,13 @@ import os, json, shutil, re, sys
 id,k,target,rx,pkg=sys.argv[1:6]; extra=sys.argv[6] if len(sys.argv)>6 else ''
 rnd=int(os.environ.get('SEED_ROUND','2'))
 out=f'/tmp/vet/out/{id}{k}'
-k2={2:{'a':'c','b':'d'},3:{'a':'e','b':'f'},4:{'a':'g','b':'h'},5:{'a':'i','b':'j'},6:{'a':'k','b':'l'},7:{'a':'m','b':'n'},8:{'a':'o','b':'p'},9:{'a':'q','b':'r'}}[rnd][k]
+k2={2:{'a':'c','b':'d'},3:{'a':'e','b':'f'},4:{'a':'g','b':'h'},5:{'a':'i','b':'j'},6:{'a':'k','b':'l'},7:{'a':'m','b':'n'},8:{'a':'o','b':'p'},9:{'a':'q','b':'r'},10:{'a':'s','b':'t'}}[rnd][k]
 d=f'/verif/seeded/{id}{k2}'
 os.makedirs(d,exist_ok=True)
 shutil.copy(out+'/applied.diff', d+'/patch.diff')
 src=f'/tmp/seed{rnd}/{id}/_out/{k}'
-shutil.copy(src+'/demo_test.go', d+'/demo_test.go')
+import glob
+shutil.copy(sorted(glob.glob(src+'/*_test.go'))[0], d+'/demo_test.go')
 readme=''
 if os.path.exists(src+'/README.md'):
     shutil.copy(src+'/README.md', d+'/README.agent.md'); readme=open(src+'/README.md').read()
